@@ -10,6 +10,7 @@ CONSTANTS
   ClientMayClose = TRUE
   HandlerMayClose = TRUE
   StartMayFail = TRUE
+  SpareFields = TRUE
   SeqRestart = FALSE
   Bug = "none"
   TrackAct = FALSE
